@@ -39,3 +39,4 @@ open Lungo.C01
 #print axioms Lungo.C01.refines_findOneAndUpdate
 #print axioms Lungo.C01.refines_replaceOne
 #print axioms Lungo.C01.refines_findOneAndReplace
+#print axioms Lungo.C01.refines_bulkWrite
